@@ -401,6 +401,6 @@ class UnmanagedBSE(ManagedBSE):
             if status[1] != size: out.append(s.vio('C05', f'at rest status().size is {status[1]}, {size} objects are in the pool or checked out', st))
             if status[2] != avail: out.append(s.vio('C05', f'at rest status().available is {status[2]}, {avail} objects are waiting in the pool', st))
             if status[3] != len(blocked_get):
-                out.append(dict(s.vio('C05', f'at rest status().waiting is {status[3]} while {len(blocked_get)} callers are blocked in get()', st), known='K-C05'))
+                out.append(s.vio('C05', f'at rest status().waiting is {status[3]} while {len(blocked_get)} callers are blocked in get()', st))
             if snap['queue'] != avail: out.append(s.vio('C05', f'the queue holds {snap["queue"]} objects, ground truth {avail}', st))
         return out
